@@ -927,7 +927,7 @@ theorem slotDomB_sound (P : Profile) (hwf : ProfileWF P = true) (arch : Endian) 
 
 /-- Boolean form of `FileRT` -/
 def fileRTB (P : Profile) (f : FileSt) : Bool :=
-  decide (f.hdr.size = headerSizeCRC) && decide (f.hdr.dtype = fitTag) &&
+  decide (f.hdr.size = headerSizeNoCRC ∨ f.hdr.size = headerSizeCRC) && decide (f.hdr.dtype = fitTag) &&
   decide (f.hdr.proto < 256 ∧ f.hdr.proto / 16 ≤ protoMajorMax) && decide (f.fileId.num = mnFileId) &&
   oneDomB P f.fileId &&
   (match f.creator with | some m => oneDomB P m | none => true) &&
@@ -1019,8 +1019,8 @@ def mkMsg (n : Nat) (sets : List (Nat × Val)) : Msg :=
 /-- a settings file: two user_profile messages with different valid fields — a name in the first
     only — so the slice gets a union definition and each record carries invalid fillers (among them
     the empty string); one hrm_profile message; one device_settings message with two full-length arrays -/
-def exampleSettings : FileSt :=
-  { hdr := { size := 14, proto := 0x20, profile := 2115, dtype := fitTag },
+def exampleSettings (sz : Nat) : FileSt :=
+  { hdr := { size := sz, proto := 0x20, profile := 2115, dtype := fitTag },
     fileId := mkMsg 0 [(0, .u 2), (1, .u 1), (2, .u 7), (3, .u 12345), (4, .t 1000 0 0)],
     cidx := some 1,
     slots := [[mkMsg 3 [(1, .s [65, 66]), (2, .u 1), (3, .u 30)], mkMsg 3 [(3, .u 41), (4, .u 180)]], [mkMsg 4 [(0, .u 1)]], [], [],
@@ -1032,31 +1032,33 @@ def encodesSmall (arch : Endian) (f : FileSt) : Bool :=
   | _ => false
 
 set_option maxRecDepth 100000 in
-/-- the premises of `decode_encode_identity` are satisfiable: for this File, in both byte orders,
+/-- the premises of `decode_encode_identity` are satisfiable: for this File, with a 12-byte or a
+    14-byte header and in both byte orders,
     `Encode` succeeds, the File is in the domain and of the typed shape — hence `Decode` of the
     bytes, with anything after them, returns its slots unchanged -/
-example (arch : Endian) (o : Opts) (g : Globals) (tail : Bytes) (stop : Stop) :
-    ∃ bs f' F', encode Gen.profile arch exampleSettings = .ok bs f' ∧
+example (sz : Nat) (hsz : sz = 12 ∨ sz = 14) (arch : Endian) (o : Opts) (g : Globals) (tail : Bytes) (stop : Stop) :
+    ∃ bs f' F', encode Gen.profile arch (exampleSettings sz) = .ok bs f' ∧
       (decodeSpec Gen.profile o .full g (bs ++ tail) stop).1.st.file = some F' ∧
-      F'.fileId = exampleSettings.fileId ∧ F'.slots = exampleSettings.slots := by
-  have h1 : encodesSmall arch exampleSettings = true := by cases arch <;> decide +kernel
+      F'.fileId = (exampleSettings sz).fileId ∧ F'.slots = (exampleSettings sz).slots := by
+  have h1 : encodesSmall arch (exampleSettings sz) = true := by
+    rcases hsz with rfl | rfl <;> cases arch <;> decide +kernel
   unfold encodesSmall at h1
-  cases he : encode Gen.profile arch exampleSettings with
+  cases he : encode Gen.profile arch (exampleSettings sz) with
   | error => rw [he] at h1; cases h1
   | panic => rw [he] at h1; cases h1
   | ok bs f' =>
     rw [he] at h1
     simp only [decide_eq_true_eq] at h1
-    have hi : ∀ i, exampleSettings.cidx = some i → i = 1 := by
+    have hi : ∀ i, (exampleSettings sz).cidx = some i → i = 1 := by
       intro i hi
-      have : exampleSettings.cidx = some 1 := rfl
+      have : (exampleSettings sz).cidx = some 1 := rfl
       rw [this] at hi
       injection hi with hi
       exact hi.symm
-    obtain ⟨F', _, hF, h3, _, _, _, _, _, h9, _⟩ := decode_encode_identity arch exampleSettings f' bs he (by decide +kernel) h1
-      (fun i h => by rw [hi i h]; decide +kernel)
-      (fun i h => by rw [hi i h]; decide +kernel)
-      (by decide +kernel) o g tail stop
+    obtain ⟨F', _, hF, h3, _, _, _, _, _, h9, _⟩ := decode_encode_identity arch (exampleSettings sz) f' bs he (by rcases hsz with rfl | rfl <;> decide +kernel) h1
+      (fun i h => by rw [hi i h]; rcases hsz with rfl | rfl <;> decide +kernel)
+      (fun i h => by rw [hi i h]; rcases hsz with rfl | rfl <;> decide +kernel)
+      (by rcases hsz with rfl | rfl <;> decide +kernel) o g tail stop
     exact ⟨bs, f', F', rfl, hF, h3, h9⟩
 
 end Fit.Props.C06
